@@ -33,8 +33,8 @@ CHECKS["C07"] = {
     "engine": "verus",
     "design_ref": "DESIGN.md section 5, C07",
     "technique": "Verus function contracts on the extracted real text of src/codes/ccsds.rs (AR4JA part) against the Blue Book formulas",
-    "text": "Unbounded proof over all nine AR4JA codes (symbolic rate and size) that M follows Table 7-2, pi_k(i) equals the Blue Book formula and stays below M, theta/phi tables equal the pinned tables, and h() never panics or overflows and returns a well-formed 3M x (k+3M) matrix; see evidence for the view-level obligations registered.",
-    "note": "Trusted: Verus/z3, the extractor (N3 on the two statics), SparseMatrix::new. Not decided: rank, invertibility of the last 3M columns, girth, the C2 code (uses enumerate), equality with pinned matrices.",
+    "text": "Unbounded proof over all nine AR4JA codes (symbolic rate and size) that M follows Table 7-2, pi_k(i) equals the Blue Book formula and stays below M, theta/phi tables equal the pinned tables, and h() never panics or overflows and returns a well-formed 3M x (k+3M) matrix that equals the Blue Book block matrix entry by entry; and that the C2 matrix is 1022 x 8176, equals the 2 x 16 array of weight-2 511 x 511 circulants of Table 7-1 entry by entry, with row weight 32 and column weight 4.",
+    "note": "Trusted: Verus/z3, the extractor (N3 on the two statics), SparseMatrix::new. Not decided: rank (AR4JA full row rank, C2 rank 1020), invertibility of the last 3M columns, girth; phi_k is pinned to the tree rather than independently transcribed.",
 }
 CHECKS["C01"] = {
     "engine": "verus",
